@@ -5,6 +5,7 @@ import (
 	"runtime/debug"
 	"strings"
 	"sync"
+	"time"
 
 	"kgsimhook"
 )
@@ -48,6 +49,9 @@ type Sched struct {
 	// (bubble worlds pass synctest.Wait).
 	Quiesce func()
 	Yields  int
+
+	points   []*Point
+	pointSeq int
 }
 
 func NewSched(r *Run) *Sched {
@@ -66,6 +70,9 @@ func (s *Sched) self() *Thread {
 }
 
 func (s *Sched) IsSimThread() bool { return s.self() != nil }
+
+// InBubble: bubble worlds set Quiesce.
+func (s *Sched) InBubble() bool { return s.Quiesce != nil }
 
 func (s *Sched) park(t *Thread, st tstate, site string) {
 	s.mu.Lock()
@@ -401,3 +408,119 @@ func (s *Sched) RunRounds(maxSteps int, style int, atQuiet func()) string {
 		}
 	}
 }
+
+// ---------------------------------------------------------------------------
+// Sim points of arbitrary goroutines (bubble worlds): network, API, stubs.
+
+// Point is a goroutine parked at a sim point until the driver releases it
+// with an outcome.
+type Point struct {
+	Kind   string // e.g. "api-pre", "api-post", "upstream", "dial"
+	Key    string // canonical, deterministic description
+	Seq    int    // arrival order among points with the same key
+	Node   string // owner (for crash: points of a dead node are never released)
+	Data   interface{}
+	resume chan int
+}
+
+// ParkPoint blocks the calling goroutine (any goroutine) until the driver
+// releases the point, and returns the outcome the driver chose.
+func (s *Sched) ParkPoint(kind, node, key string, data interface{}) int {
+	p := &Point{Kind: kind, Key: key, Node: node, Data: data, resume: make(chan int)}
+	s.mu.Lock()
+	s.pointSeq++
+	p.Seq = s.pointSeq
+	s.points = append(s.points, p)
+	s.mu.Unlock()
+	select {
+	case s.ev <- struct{}{}:
+	default:
+	}
+	return <-p.resume
+}
+
+// Points returns the parked points in canonical order (key, then arrival).
+func (s *Sched) Points() []*Point {
+	s.mu.Lock()
+	out := append([]*Point(nil), s.points...)
+	s.mu.Unlock()
+	sortPoints(out)
+	return out
+}
+
+func sortPoints(ps []*Point) {
+	for i := 1; i < len(ps); i++ {
+		for j := i; j > 0; j-- {
+			a, b := ps[j-1], ps[j]
+			if a.Key > b.Key || (a.Key == b.Key && a.Seq > b.Seq) {
+				ps[j-1], ps[j] = b, a
+			} else {
+				break
+			}
+		}
+	}
+}
+
+// Release lets the goroutine parked at p continue with outcome, then waits
+// for quiescence.
+func (s *Sched) Release(p *Point, outcome int) {
+	s.mu.Lock()
+	for i, q := range s.points {
+		if q == p {
+			s.points = append(s.points[:i], s.points[i+1:]...)
+			break
+		}
+	}
+	s.progress++
+	s.mu.Unlock()
+	p.resume <- outcome
+	s.settle()
+}
+
+// Drop forgets a point without ever releasing it (its goroutine belongs to a
+// crashed node and stays parked for ever).
+func (s *Sched) Drop(p *Point) {
+	s.mu.Lock()
+	for i, q := range s.points {
+		if q == p {
+			s.points = append(s.points[:i], s.points[i+1:]...)
+			break
+		}
+	}
+	s.mu.Unlock()
+}
+
+func (s *Sched) settle() {
+	if s.Quiesce != nil {
+		s.Quiesce()
+	}
+	for {
+		select {
+		case <-s.ev:
+			continue
+		default:
+		}
+		return
+	}
+}
+
+// Settle waits for quiescence (bubble worlds).
+func (s *Sched) Settle() { s.settle() }
+
+// Advance moves the fake clock forward by at most d, stopping early as soon
+// as some goroutine reaches a sim point. It returns the time that passed.
+func (s *Sched) Advance(d time.Duration) time.Duration {
+	s.settle()
+	start := time.Now()
+	tm := time.NewTimer(d)
+	select {
+	case <-tm.C:
+	case <-s.ev:
+		tm.Stop()
+	}
+	s.settle()
+	return time.Since(start)
+}
+
+// Done reports whether the thread's function has returned.
+func (t *Thread) Done() bool { return t.state == tDone }
